@@ -491,7 +491,11 @@ func TestUpdate(t *testing.T) {
 		res.Add("model_steps", len(b)-1)
 		behs := [][]tla.SimStep{b}
 		if i%3 == 2 { // every third run drives two channels of the same client pair with interleaved steps
-			behs = append(behs, all[(i+7)%len(all)])
+			j := (i + 7*shards) % len(all) // another behaviour of this shard (only those are loaded)
+			if all[j] == nil {
+				j = i
+			}
+			behs = append(behs, all[j])
 			res.Add("two_channel_runs", 1)
 		}
 		runUpdateBehaviours(t, res, behs, T, i)
